@@ -52,7 +52,8 @@ func pool(c pgcheck.ColCfg) [][]byte {
 	if c.Shadow == sess.OIDInt4 {
 		return [][]byte{[]byte("1"), []byte("12"), []byte("-12"), []byte("2147483647")}
 	}
-	return [][]byte{[]byte("a"), []byte("ab"), []byte("a" + strings.Repeat("0123456789", 4)), []byte("a 33-byte value 0123456789abcdefg")}
+	// the empty value is stored as it is (no envelope, no blind index) and must still be found
+	return [][]byte{[]byte("a"), []byte("ab"), []byte("a" + strings.Repeat("0123456789", 4)), []byte("a 33-byte value 0123456789abcdefg"), []byte("")}
 }
 
 // searched values: every pool value, an absent value, a strict prefix of a pool value
@@ -70,6 +71,10 @@ type op struct {
 }
 
 func insertStmt(c pgcheck.ColCfg, how string, k int, v []byte) pgcheck.Stmt {
+	if len(v) == 0 && strings.HasPrefix(how, "ins-envelope-") {
+		// there is no envelope of an empty value (Themis rejects empty messages)
+		how = map[string]string{"ins-envelope-literal": "ins-literal", "ins-envelope-binary-param": "ins-binary-param"}[how]
+	}
 	switch how {
 	case "ins-literal":
 		return pgcheck.Mk(how, "", true, true, sess.Q(fmt.Sprintf("insert into t (id, plain, c) values (%d, 'p%d', %s)", k, k, pgcheck.Literals(c.Shadow, v)[0])), v)
@@ -195,7 +200,11 @@ func hashOracle(c pgcheck.ColCfg, ops []op) func(prot, shadow *sess.PGDB, add fu
 		byHash := map[string]string{}
 		for i := range pt.Rows {
 			stored, plain := pt.Rows[i][2], st.Rows[i][2]
-			if plain == nil {
+			if len(plain) == 0 {
+				// NULL and the empty value are stored as they are
+				if len(stored) != 0 {
+					add("stored/empty-value-changed", "empty value of a searchable column stored as %.40x", stored)
+				}
 				continue
 			}
 			if len(stored) < 33 || stored[0] != 0x7F {
